@@ -233,6 +233,8 @@ class Matcher:
                 elif a["size"] == "*":
                     if type(node.dim).__name__ != "ID" or node.dim.name != "*":
                         self.fail(p + ".dim", "*", getattr(node.dim, "name", None))
+                    elif a.get("star_m") is not None:
+                        self.pair(node.dim, a["star_m"])
                 else:
                     self.expr(node.dim, a["size"], p + ".dim")
             else:
